@@ -3,7 +3,7 @@ CONSTANTS
   Sessions = {1, 2}
   MaxOps = 4
   Kinds = {"a", "num"}
-  DEV = {}
+  WithWrite = TRUE
   Emit = TRUE
 SPECIFICATION Spec
 INVARIANTS EmitInv
